@@ -274,6 +274,10 @@ def determinism_check(res, known, args):
     tab = sites_obligation(res, "C13")
     hook = core.Hook()
     runs = 6 if res.tier == "quick" else 40
+    # Go starts a map iteration at a random offset: two entries that sit next to each other swap their relative order in
+    # only 1 of 8 iterations, so an order-dependence between two packets shows in a run with probability 1/8.  The small
+    # hand-made layout programs (where such dependences are planted) are therefore compiled many more times.
+    runs_layout = 48 if res.tier == "quick" else 200
     progs = det_programs(res.tier, res.seed)
     n = differing = compiled = 0
     distinct_orders = 0
@@ -281,7 +285,8 @@ def determinism_check(res, known, args):
     for pid, text in progs:
         first = None
         ok = True
-        for k in range(runs):
+        nruns = runs_layout if pid.startswith("det-") else runs
+        for k in range(nruns):
             resp = hook.ask({"op": "gen", "text": text, "langs": ALL_LANGS})
             if resp.get("fatal") or resp.get("syntax_error") or resp.get("rejected") or resp.get("cyclic") or "steps" not in resp:
                 ok = False
@@ -306,9 +311,9 @@ def determinism_check(res, known, args):
                 break
         if ok:
             compiled += 1
-            n += runs
+            n += nruns
             if len(samples_out) < 2:
-                samples_out.append({"program": pid, "runs": runs, "files": sum(len(v) for v in first.values()), "identical": True})
+                samples_out.append({"program": pid, "runs": nruns, "files": sum(len(v) for v in first.values()), "identical": True})
     hook.close()
     bad_sites = [s for s in tab["map_ranges"] if not (s["kind"] in ("keyed-insert", "collect-then-sort") or (s["kind"] == "effects" and s["func"] == "WriteCodeToFile"))]
     for s in bad_sites:
